@@ -71,12 +71,26 @@ func main() {
 package verifsync
 
 // Yield, when set, is called before every statement that performs a
-// synchronisation operation.
+// synchronisation operation, unless the caller holds a lock.
 var Yield func()
+
+// depth counts the locks the running task holds. Only one task runs at a
+// time in the mode that uses this package, and a task never yields while it
+// holds a lock, so one counter serves all tasks.
+var depth int
+
+// Locked and Unlocked bracket critical sections.
+func Locked() { depth++ }
+
+func Unlocked() {
+	if depth > 0 {
+		depth--
+	}
+}
 
 // Point is the inserted yield point.
 func Point() {
-	if Yield != nil {
+	if Yield != nil && depth == 0 {
 		Yield()
 	}
 }
@@ -143,6 +157,24 @@ func (in *instr) list(list []ast.Stmt) []ast.Stmt {
 	var out []ast.Stmt
 	for _, st := range list {
 		in.nested(st)
+		switch lockKind(st) {
+		case "lock":
+			// A yield before taking a lock (never while holding one), then
+			// note that one is held.
+			out = append(out, yieldStmt(), st, callStmt("Locked"))
+			in.sites++
+			continue
+		case "unlock":
+			out = append(out, callStmt("Unlocked"), st)
+			continue
+		case "deferunlock":
+			d := st.(*ast.DeferStmt)
+			out = append(out, &ast.DeferStmt{Call: &ast.CallExpr{Fun: &ast.FuncLit{
+				Type: &ast.FuncType{Params: &ast.FieldList{}},
+				Body: &ast.BlockStmt{List: []ast.Stmt{callStmt("Unlocked"), &ast.ExprStmt{X: d.Call}}},
+			}}})
+			continue
+		}
 		if in.header(st) {
 			out = append(out, yieldStmt())
 			in.sites++
@@ -150,6 +182,37 @@ func (in *instr) list(list []ast.Stmt) []ast.Stmt {
 		out = append(out, st)
 	}
 	return out
+}
+
+func callStmt(name string) ast.Stmt {
+	return &ast.ExprStmt{X: &ast.CallExpr{Fun: &ast.SelectorExpr{X: ast.NewIdent("verifsync"), Sel: ast.NewIdent(name)}}}
+}
+
+// lockKind classifies statements that are exactly one lock or unlock call.
+func lockKind(st ast.Stmt) string {
+	name := func(c *ast.CallExpr) string {
+		if sel, ok := c.Fun.(*ast.SelectorExpr); ok && len(c.Args) == 0 {
+			return sel.Sel.Name
+		}
+		return ""
+	}
+	switch s := st.(type) {
+	case *ast.ExprStmt:
+		if c, ok := s.X.(*ast.CallExpr); ok {
+			switch name(c) {
+			case "Lock", "RLock":
+				return "lock"
+			case "Unlock", "RUnlock":
+				return "unlock"
+			}
+		}
+	case *ast.DeferStmt:
+		switch name(s.Call) {
+		case "Unlock", "RUnlock":
+			return "deferunlock"
+		}
+	}
+	return ""
 }
 
 // nested instruments the blocks inside st (and function literals anywhere in it).
